@@ -23,6 +23,7 @@ pub struct ExFromUtf8Error(FromUtf8Error);
 pub struct ExIoError(std::io::Error);
 
 //@ include lib/digest_names.rs
+//@ include lib/digest_spec.rs
 
 // ---------------- src/distinfo.rs: one line ----------------
 //@ extract src/distinfo.rs : enum Line
@@ -270,6 +271,15 @@ pub struct Checksum {
     pub hash: String,
 }
 //@ end
+impl Checksum {
+//@ extract src/distinfo.rs : impl Checksum fn new
+    pub fn new(digest: Digest, hash: String) -> (r: Checksum)
+        ensures r.digest == digest, r.hash == hash
+    {
+        Checksum { digest, hash }
+    }
+//@ end
+}
 //@ extract src/distinfo.rs : struct Entry
 pub struct Entry {
     pub filename: PathBuf,
@@ -781,6 +791,7 @@ impl Distinfo {
 
 // ================= verification against the file system (C12) =================
 use std::fs::File;
+use std::io::Read;
 use std::io;
 #[verifier::external_type_specification]
 #[verifier::external_body]
@@ -809,27 +820,37 @@ impl vstd::std_specs::convert::FromSpecImpl<DigestError> for DistinfoError {
 }
 impl From<DigestError> for DistinfoError { fn from(e: DigestError) -> DistinfoError { DistinfoError::Digest(e) } }
 
-/// the world: length of the file at a path / digest of its content (None = the operation reports an I/O or digest error).
-/// That w_digest is the standard algorithm (over the patch-filtered content for patches) is C13, not decided here.
+/// the world: length of the file at a path (None = the operation reports an I/O error) and what reading the file at a path delivers
 pub uninterp spec fn w_len(path: Seq<u8>) -> Option<int>;
-pub uninterp spec fn w_digest(d: Digest, kind: EntryType, path: Seq<u8>) -> Option<Seq<char>>;
+pub uninterp spec fn w_content(path: Seq<u8>) -> core::result::Result<Seq<u8>, ()>;
+pub uninterp spec fn w_openable(path: Seq<u8>) -> bool;
+/// statement of C12: that algorithm's digest of the file - for patch files: of the file with every line containing '$NetBSD' removed -
+/// as lower-case hex (None: the file cannot be opened or read).  std_digest is the standard algorithm (C13: assumed of the external cores).
+pub open spec fn w_digest(d: Digest, kind: EntryType, path: Seq<u8>) -> Option<Seq<char>> {
+    if !w_openable(path) { None } else {
+        match w_content(path) {
+            Ok(b) => Some(hex_seq(std_digest(d, if kind == EntryType::Patchfile { patch_filter(b) } else { b }))),
+            Err(_) => None,
+        }
+    }
+}
 pub uninterp spec fn fpath(f: &File) -> Seq<u8>;
 #[verifier::external_body]
 fn shim_file_open(path: &Path) -> (r: io::Result<File>)
-    ensures r is Ok ==> fpath(&r->Ok_0) == pab(path), r is Err ==> w_len(pab(path)) is None && forall|d: Digest, k: EntryType| w_digest(d, k, pab(path)) is None
+    ensures r is Ok ==> fpath(&r->Ok_0) == pab(path) && w_openable(pab(path)) && stream_of(r->Ok_0) == w_content(pab(path)),
+        r is Err ==> w_len(pab(path)) is None && !w_openable(pab(path))
 { File::open(path) }
 #[verifier::external_body]
 fn shim_file_len(f: &File) -> (r: io::Result<u64>)
     ensures (match w_len(fpath(f)) { Some(n) => r is Ok && r->Ok_0 == n, None => r is Err })
 { Ok(f.metadata()?.len()) }
-#[verifier::external_body]
-fn shim_hash_file(d: &Digest, f: &mut File) -> (r: DigestResult<String>)
-    ensures fpath(final(f)) == fpath(old(f)), (match w_digest(*d, EntryType::Distfile, fpath(old(f))) { Some(h) => r is Ok && r->Ok_0@ == h, None => r is Err })
-{ unimplemented!() }
-#[verifier::external_body]
-fn shim_hash_patch(d: &Digest, f: &mut File) -> (r: DigestResult<String>)
-    ensures fpath(final(f)) == fpath(old(f)), (match w_digest(*d, EntryType::Patchfile, fpath(old(f))) { Some(h) => r is Ok && r->Ok_0@ == h, None => r is Err })
-{ unimplemented!() }
+#[verifier::external_trait_specification]
+pub trait ExRead { type ExternalTraitSpecificationFor: std::io::Read; }
+// the digest glue is proved in unit digest (C13); here only its contracts are used
+impl Digest {
+//@ import digest : impl Digest fn hash_file
+//@ import digest : impl Digest fn hash_patch
+}
 #[verifier::external_body]
 fn shim_string_ne(a: &String, b: &String) -> (r: bool) ensures r == (a@ != b@) { a != b }
 #[verifier::external_body]
@@ -1229,84 +1250,6 @@ impl Distinfo {
     }
 //@ end
 }
-
-// ---- functions of src/digest.rs that feed C12 but are outside the verifier's reach (generic over the RustCrypto
-// hasher traits, BufReader::split, iterator folds over format!): pinned, any change makes the unit undecided and the
-// bounded stand-in of C12 (replay search, independent patch-filter oracle) runs instead.
-//@ watch src/digest.rs : fn hash_patch_internal
-fn hash_patch_internal<R: Read, D: digest::Digest + std::io::Write>(
-    reader: &mut R,
-) -> DigestResult<String> {
-    let mut hasher = D::new();
-    let bufreader = BufReader::new(reader);
-
-    for line in bufreader.split(b'\n') {
-        let line = line?;
-        if line.windows(7).any(|window| window == b"$NetBSD") {
-            continue;
-        }
-        hasher.update(&line);
-        hasher.update(b"\n");
-    }
-
-    let hash = hasher
-        .finalize()
-        .iter()
-        .fold(String::new(), |mut output, b| {
-            output.push_str(&format!("{b:02x}"));
-            output
-        });
-    Ok(hash)
-}
-//@ end
-//@ watch src/digest.rs : fn hash_file_internal
-fn hash_file_internal<R: Read, D: digest::Digest + std::io::Write>(
-    reader: &mut R,
-) -> DigestResult<String> {
-    let mut hasher = D::new();
-    std::io::copy(reader, &mut hasher)?;
-    let hash = hasher
-        .finalize()
-        .iter()
-        .fold(String::new(), |mut output, b| {
-            output.push_str(&format!("{b:02x}"));
-            output
-        });
-    Ok(hash)
-}
-//@ end
-//@ watch src/digest.rs : impl Digest fn hash_patch
-    pub fn hash_patch<R: Read>(&self, reader: &mut R) -> DigestResult<String> {
-        match self {
-            Digest::BLAKE2s => {
-                hash_patch_internal::<_, blake2::Blake2s256>(reader)
-            }
-            Digest::MD5 => hash_patch_internal::<_, md5::Md5>(reader),
-            Digest::RMD160 => {
-                hash_patch_internal::<_, ripemd::Ripemd160>(reader)
-            }
-            Digest::SHA1 => hash_patch_internal::<_, sha1::Sha1>(reader),
-            Digest::SHA256 => hash_patch_internal::<_, sha2::Sha256>(reader),
-            Digest::SHA512 => hash_patch_internal::<_, sha2::Sha512>(reader),
-        }
-    }
-//@ end
-//@ watch src/digest.rs : impl Digest fn hash_file
-    pub fn hash_file<R: Read>(&self, reader: &mut R) -> DigestResult<String> {
-        match self {
-            Digest::BLAKE2s => {
-                hash_file_internal::<_, blake2::Blake2s256>(reader)
-            }
-            Digest::MD5 => hash_file_internal::<_, md5::Md5>(reader),
-            Digest::RMD160 => {
-                hash_file_internal::<_, ripemd::Ripemd160>(reader)
-            }
-            Digest::SHA1 => hash_file_internal::<_, sha1::Sha1>(reader),
-            Digest::SHA256 => hash_file_internal::<_, sha2::Sha256>(reader),
-            Digest::SHA512 => hash_file_internal::<_, sha2::Sha512>(reader),
-        }
-    }
-//@ end
 
 /// byte-string literals used by Line::from_bytes
 pub proof fn reveal_strlit_bytes() { }
